@@ -142,7 +142,7 @@ def run(ctx):
     for fi, f in enumerate(chosen):
         n = _leaves(f)
         maxlen = min(n + 1, 4 if ctx.quick else 5)
-        budget = 400 if ctx.quick else 2500
+        budget = 400 if ctx.quick else 1500
         for v in variants:
             items.append((fi, f, v, maxlen, budget, ctx.seed + fi))
     rnd.shuffle(items)
@@ -165,13 +165,31 @@ def run(ctx):
             continue
         cases.append({"f": chosen[fi], "obs": [{"seq": o["seq"], "first": o["first"]} for o in obs]})
         index.append((fi, variant, obs, src))
-    jd = ctx.sub("judge")
-    jf = os.path.join(jd, "obs.json")
-    with open(jf, "w") as fh:
-        json.dump(cases, fh)
-    jr = tlc.run("MC_Formula.tla", 'CONSTANTS Mode = "judge"\nMaxLeaves = 1\nSPECIFICATION Spec\nINVARIANT Verdict\n',
-                 jd, spec_dirs=[SPEC_DIR], env={"TRACE_FILE": jf}, workers=1, timeout=3000)
-    verd = {p["k"]: p for p in jr.printed if "k" in p}
+    # the judge runs in parallel over slices of the recorded cases (one TLC each)
+    from concurrent.futures import ThreadPoolExecutor
+    nsl = 1 if len(cases) < 200 else 16
+    bounds = [(len(cases) * q // nsl, len(cases) * (q + 1) // nsl) for q in range(nsl)]
+
+    def judge_slice(q):
+        lo, hi = bounds[q]
+        jd = ctx.sub("judge%d" % q)
+        jf = os.path.join(jd, "obs.json")
+        with open(jf, "w") as fh:
+            json.dump(cases[lo:hi], fh)
+        return tlc.run("MC_Formula.tla", 'CONSTANTS Mode = "judge"\nMaxLeaves = 1\nSPECIFICATION Spec\nINVARIANT Verdict\n',
+                       jd, spec_dirs=[SPEC_DIR], env={"TRACE_FILE": jf}, workers=1, timeout=6000)
+    with ThreadPoolExecutor(nsl) as ex:
+        jrs = list(ex.map(judge_slice, [q for q in range(nsl) if bounds[q][1] > bounds[q][0]]))
+    verd = {}
+    for q, r_ in zip([q for q in range(nsl) if bounds[q][1] > bounds[q][0]], jrs):
+        for p_ in r_.printed:
+            if "k" in p_:
+                verd[p_["k"] + bounds[q][0]] = p_
+
+    class _Sum:
+        distinct = sum(x.distinct for x in jrs)
+        generated = sum(x.generated for x in jrs)
+    jr = _Sum
     assert len(verd) == len(cases), "judge: %d verdicts for %d cases" % (len(verd), len(cases))
     judged = 0
     notjudged_bad = [0]
